@@ -31,7 +31,8 @@ RULE = ("part lists of length 1-6 (text fields and files) x names/filenames with
 EXHAUSTIVE = {"quick": False, "thorough": False}
 
 BCHARS = "0123456789abcdefghijklmnopqrstuvwxyzABCDEFGHIJKLMNOPQRSTUVWXYZ'()+_,-./:=?"
-NAMES = ["a", "field", "a b", 'q"uote', "semi;colon", "back\\slash", "é", "a=b", "trail\\", " lead", "comma,", "名字", "x\ty", ""]
+NAMES = ["a", "field", "a b", 'q"uote', "semi;colon", "back\\slash", "é", "a=b", "trail\\", " lead", "comma,", "名字", "x\ty", "",
+         'end"', '"start', '"both"', 'esc\\"', 'q""', "it's"]
 
 
 def quote_param(v):
@@ -106,8 +107,9 @@ def rand_parts(rng, boundary, sizes):
         c = rand_content(rng, n, boundary, not isfile)
         name = rng.choice(NAMES)
         parts.append((name, rng.choice(NAMES[:-1]) + ".bin" if isfile else None,
-                      rng.choice(["application/octet-stream", "text/x-a; charset=utf-8", "image/png", None]) if isfile else
-                      rng.choice([None, None, "text/plain"]), c))
+                      rng.choice(["application/octet-stream", "text/x-a; charset=utf-8", "image/png", None,
+                                  "application/x-www-form-urlencoded", "message/rfc822", "application/json"]) if isfile else
+                      rng.choice([None, None, "text/plain", "application/x-www-form-urlencoded"]), c))
     return parts
 
 
